@@ -9,6 +9,9 @@
 (*        res/xidok are those of the request.  Under lens C01 this is C01's    *)
 (*        availability sentence observed on the real receive loop              *)
 (*        (Lifecycle!Datagram keeps srv[i] = "reading": ServesWhileOpen)       *)
+(*  burst {i, proto, n, own, stray, missing}   n clients sent at the same     *)
+(*        instant: own got exactly their answer, stray = answers that were     *)
+(*        somebody else's                                                      *)
 (*  startrace {cfg, res, sent, replies, bare}   SOLICITs every 2 ms from before *)
 (*        server.Start (a chain with a 300 ms plugin setup that succeeds /     *)
 (*        fails) until after it returned: bare = replies the configured chain  *)
@@ -41,6 +44,12 @@ TDatagram == /\ IsEvent("dgs")
              /\ LET e == Trace[l] IN
                 (On \/ "C01" \in Lens) => (e.res = "reply" /\ e.xidok)     \* later datagrams are still handled
              /\ UNCHANGED <<n, started>>
+\* many clients at the same instant: each gets exactly the answer to ITS request at ITS address (C12: back to the source
+\* address and port; C16: the replies are those of some one-at-a-time order; C01: one reply per datagram)
+TBurst == /\ IsEvent("burst")
+          /\ LET e == Trace[l] IN
+             (On \/ Lens \cap {"C01", "C12", "C16"} # {}) => (e.own = e.n /\ e.stray = 0 /\ e.missing = 0)
+          /\ UNCHANGED <<n, started>>
 TStartRace == /\ IsEvent("startrace")
               /\ LET e == Trace[l] IN
                  (On \/ "C13" \in Lens) =>
@@ -54,7 +63,7 @@ TWait == /\ IsEvent("wait")
 TNote == IsEvent("note") /\ UNCHANGED <<n, started>>
 
 TraceInit == l = 1 /\ n = 0 /\ started = FALSE
-TraceNext == TStart \/ TPorts \/ TRoundTrip \/ TDatagram \/ TStartRace \/ TWait \/ TNote
+TraceNext == TStart \/ TPorts \/ TRoundTrip \/ TDatagram \/ TBurst \/ TStartRace \/ TWait \/ TNote
 TraceSpec == TraceInit /\ [][TraceNext]_tvars
 TraceAccepted ==
   LET d == TLCGet("stats").diameter
